@@ -28,6 +28,9 @@ pub const ALPHA: [&str; 6] = ["a", "b", "c", " ", "ä", "\n"];
 /// (U+0000 is the lowest byte / token id: a value an implementation might use as a sentinel)
 pub const WS_ALPHA: [&str; 8] = ["a", "b", " ", "\u{a0}", "\t", "\u{3000}", "\u{2028}", "\u{0}"];
 pub const WS_MAX_LEN: usize = 4;
+/// the spellings of special tokens as plain text, whitespace and a letter
+pub const SPECIAL_TEXT_ALPHA: [&str; 6] = ["<pad>", "<bos>", " ", "a", "<", "\n"];
+pub const SPECIAL_TEXT_MAX_LEN: usize = 4;
 /// number of special tokens of `SpecialConfig::default()` (<unk>, <bos>, <eos>, <pad>)
 pub const NUM_SPECIAL: usize = 4;
 
@@ -706,6 +709,11 @@ fn run_table(
             run_strings(run, oracle, &b, strs, max_len, buf);
             if main && (origin.starts_with("F3") || full.len() <= 1) {
                 run_strings(run, oracle, &b, ws_strs, WS_MAX_LEN, buf);
+                // texts that spell special tokens (plain text here: they are ignored on both sides),
+                // with whitespace in front of them, behind them and between them
+                static SP: std::sync::OnceLock<Strs> = std::sync::OnceLock::new();
+                let sp_strs = SP.get_or_init(|| Strs::with_alpha(&SPECIAL_TEXT_ALPHA, SPECIAL_TEXT_MAX_LEN));
+                run_strings(run, oracle, &b, sp_strs, SPECIAL_TEXT_MAX_LEN, buf);
             }
             // long words: lengths around the powers of two a size threshold would sit at
             if main && origin.starts_with("F3") {
@@ -780,6 +788,7 @@ pub fn drive(id: &'static str, mut oracle: impl Oracle) -> ! {
     let ws_strs = Strs::with_alpha(&WS_ALPHA, WS_MAX_LEN);
     let abcde_strs = Strs::with_alpha(&["a", "b", "c", "d", "e"], 5);
     run.bounds.insert("string_alphabet".into(), json!(ALPHA));
+    run.bounds.insert("special_token_text_string_set".into(), json!(format!("all strings over {SPECIAL_TEXT_ALPHA:?} up to {SPECIAL_TEXT_MAX_LEN} symbols, on the hand tables and the exhaustive tables with <= 1 entry (main configuration)")));
     run.bounds.insert("white_space_string_set".into(), json!(format!("all strings over {WS_ALPHA:?} up to {WS_MAX_LEN} symbols, on the hand tables and the exhaustive tables with <= 1 entry (main configuration)")));
     run.bounds.insert("tables".into(), json!(sp.counts));
     run.bounds.insert("jobs".into(), json!(sp.jobs.len()));
